@@ -36,8 +36,10 @@ def run(ctx):
         "ocaml/c20_check.ml (diff_events), which is trusted for the Order monitors"]
     ctx.notes = ["open findings F-20a,b,c,e,f,g,h (findings/C20.jsonl; F-20d repaired in /repo): Consistency and termination of spec/Config.tla do not hold for the v3 code "
                  "as it is; the theorems C20_*_refuted state that on the model, the corpus re-confirms each on the real code at every run",
-                 "C20_commit_before_apply and C20_ordinal_mono are proved for all reachable worlds; Order as a whole is checked "
-                 "exhaustively only up to depth 7 inside Coq (C20_safety_bounded_partial) and monitored on the implementation"]
+                 "C20_commit_before_apply, C20_ordinal_mono, C20_order (the Order conjunct of spec/Config.tla, with its corollaries "
+                 "changes_in_log_order, ordinals_follow_log_order, rollbacks_reverse) and C20_failed_blocks_later are proved for all reachable "
+                 "worlds through the frontier invariant (C20_frontier_invariant, C20_blocks_invariant); only Consistency remains bounded "
+                 "(depth 7 inside Coq, C20_safety_bounded_partial) - it is refuted for the code as it is - and monitored on the implementation"]
 
 
 def sharded_pipeline(ctx, exe, mcheck, shards, scen, steps):
